@@ -270,7 +270,31 @@ def r5_read_error(ctx):
         R.check(ok, "C09.R5", "table:some-arm", "RestartNeeded is chosen exactly on the Some arm", "RestartNeeded is not tied to the Some arm of the slot", "%s:%d" % (b.file, block_line(b, built["RestartNeeded"])))
 
 
-RULES = [r1_cause_before_close, r2_no_unchecked_arith_on_peer_numbers, r3_errors_reach_watcher, r4_frontend_mapping, r5_read_error]
+def r6_no_relock(ctx):
+    """the client's background tasks never block on their own lock: no second acquisition of the request manager (or any
+    std lock) while a guard of it is alive"""
+    from .common import double_lock_scan
+    F, R = ctx.F, ctx.R
+    n = double_lock_scan(F, R, "C09.R6", r"^<?jsonrpsee_core::client::|^<?jsonrpsee_http_client::|^<?jsonrpsee_client_transport::")
+    R.ok("C09.R6", "no-relock", "%d lock acquisitions with a named/held guard inspected; none is followed by a second acquisition while the guard lives" % n)
+    R.floor("C09.R6", n, 5, "lock acquisitions in the client crates")
+
+
+def control_relock(ctx):
+    from .common import control, double_lock_scan
+
+    def run(r):
+        double_lock_scan(ctx.F, r, "C09.R6", r"^verif_fixtures::")
+        for v in r.violations:
+            if "lock_twice_sequentially" in v["key"]:
+                ctx.R.bad("C09.R6.control", "control:sequential-twin-reported", "the rule reports the twin that drops its guard first: the rule is wrong")
+    control(ctx, "C09.R6", "Mutex::lock while a guard of the same mutex is alive", run)
+
+
+CONTROLS = [control_relock]
+
+
+RULES = [r1_cause_before_close, r2_no_unchecked_arith_on_peer_numbers, r3_errors_reach_watcher, r4_frontend_mapping, r5_read_error, r6_no_relock]
 
 LEVEL_TEXT = (
     "Structural necessary conditions of clean failure handling decided from the type-checked program: the happens-before "
